@@ -86,6 +86,13 @@ Definition column (k : nat) (g : list (list Z)) : list Z := map (fun row => nth 
 (* numpy.max over the non-empty columns; -1 when there is no index at all *)
 Definition max_index (cols : list (list Z)) : Z := fold_right Z.max (-1)%Z (concat cols).
 
+(* numpy.min over the non-empty columns; 0 when there is no index at all *)
+Definition min_index (cols : list (list Z)) : Z := fold_right Z.min 0%Z (concat cols).
+(* a joint index of -1 refers to the bind shape (COLLADA); anything below it, and any negative
+   weight index, is rejected *)
+Definition negative_indices (ji wi : list (list Z)) : bool :=
+  (min_index ji <? -1)%Z || (min_index wi <? 0)%Z.
+
 (* ---------------------------------------------------------------- the parsed <skin> *)
 Record skin_desc := mk_skin_desc {
   sd_scope : scope;                    (* the <source> children, document order *)
@@ -170,6 +177,7 @@ Definition load_skin (d : skin_desc) : outcome skin_view :=
   if code_rejects_long_stream && negb (Nat.eqb (nind * stop) (length (sd_v d))) then Raise DaeMalformed else
   let ji := map (column (Z.to_nat (vp_oj p))) groups in
   let wi := map (column (Z.to_nat (vp_ow p))) groups in
+  if negative_indices ji wi then Raise DaeMalformed else
   match check_source wjs (max_index ji) with
   | Raise e => Raise e
   | Ok _ =>
